@@ -313,6 +313,13 @@ type Engine struct {
 	lastProved bool // the last assertExcept call was discharged (unsat / trivially true)
 	roundMemo map[string]*Term // rounding results by operand terms (functional consistency)
 	cur      *frame // innermost frame (diagnostics only)
+
+	// keeper memory (C19 restart clause): maps created while a keeper constructor of an Elys module is on the stack,
+	// and the writes to them made after the harness environment was built (wire.New returned)
+	ctorDepth  int
+	wiring     int
+	keeperMaps map[uintptr]string
+	memWrites  map[string]bool
 }
 
 func NewEngine(p *Program, solverBin string) *Engine {
@@ -420,6 +427,7 @@ func (e *Engine) RunPath(spec *HarnessSpec, res *HarnessResult, prefix []bool) (
 	e.roundMemo = map[string]*Term{}
 	e.declSet = map[string]bool{}
 	e.steps, e.covers, e.obs, e.newWork, e.blobs, e.world = 0, nil, nil, nil, nil, nil
+	e.ctorDepth, e.wiring, e.keeperMaps, e.memWrites = 0, 0, map[uintptr]string{}, map[string]bool{}
 	e.obsTerms = map[string]*Term{}
 	e.funcs, e.summ = map[string]int{}, map[string]int{}
 	if os.Getenv("VRF_FORKS") != "" {
@@ -898,6 +906,43 @@ func (e *Engine) observe(name string, t *Term) {
 	e.obs = append(e.obs, [2]string{name, t.String()})
 }
 
+// isKeeperCtor: a constructor (New...) of a keeper package of the Elys modules
+func isKeeperCtor(fn *ssa.Function) bool {
+	if fn.Pkg == nil || !strings.HasPrefix(fn.Name(), "New") {
+		return false
+	}
+	p := fn.Pkg.Pkg.Path()
+	return strings.HasPrefix(p, "github.com/elys-network/elys/x/") && strings.HasSuffix(p, "/keeper")
+}
+
+func mapID(m value) uintptr {
+	switch m := m.(type) {
+	case *hashmap:
+		return reflect.ValueOf(m).Pointer()
+	case map[value]value:
+		return reflect.ValueOf(m).Pointer()
+	}
+	return 0
+}
+
+// noteMapMade / noteMapWrite implement the keeper-memory bookkeeping
+func (e *Engine) noteMapMade(fr *frame, m value) {
+	if e.ctorDepth > 0 {
+		if id := mapID(m); id != 0 {
+			e.keeperMaps[id] = fr.fn.String()
+		}
+	}
+}
+
+func (e *Engine) noteMapWrite(fr *frame, m value) {
+	if e.ctorDepth > 0 || e.wiring > 0 || len(e.keeperMaps) == 0 {
+		return
+	}
+	if by, ok := e.keeperMaps[mapID(m)]; ok {
+		e.memWrites["map created by "+by+" for a keeper is written by "+fr.fn.String()] = true
+	}
+}
+
 // finishPath runs when the harness returned normally: extract a witness if wanted.
 func (e *Engine) finishPath() {
 	if p := e.spec.CheckGlobals; p != "" {
@@ -918,6 +963,15 @@ func (e *Engine) finishPath() {
 			e.assertExcept(TBool(false), "C19 restart: package-level variable "+n+" is modified by block processing (state kept in process memory does not survive a restart)", "", nil)
 		}
 		e.assertExcept(TBool(true), "C19 restart: no package-level variable of the Elys modules is modified by block processing", "", nil)
+		var ws []string
+		for w := range e.memWrites {
+			ws = append(ws, w)
+		}
+		sort.Strings(ws)
+		for _, w := range ws {
+			e.assertExcept(TBool(false), "C19 restart: "+w+" (state kept in a keeper's process memory is lost by a restart while the store is not)", "", nil)
+		}
+		e.assertExcept(TBool(true), "C19 restart: no map owned by a keeper object is written by message or block processing", "", nil)
 	}
 	if e.res.KeepPathObs {
 		po := PathObs{PC: e.exactStrings(), Decls: append([]string{}, e.decls...), Obs: map[string]string{}}
